@@ -240,6 +240,13 @@ def check(cls, case, rec):
                     prim = W >= wmax_model * (1 - 1e-12)
                     if prim.any():
                         rec.close("primary-path=base-material", float(np.abs((P - Pb)[..., prim]).max()) / max(float(np.abs(Pb).max()), 1e-12), 1e-9)
+                    if cls == "or-hand" and (~prim).any():
+                        # off the primary path (documented): P = eta P_base, eta = 1 - erf((Wmax - W) / (m + beta Wmax)) / r
+                        from scipy.special import erf
+
+                        eta = 1 - erf((wmax_model - W) / (case["m"] + case["beta"] * wmax_model)) / case["r"]
+                        rec.close("unloading-path=eta(W,Wmax)*base-stress", float(np.abs((P - eta * Pb)[..., ~prim]).max()) / max(float(np.abs(Pb).max()), 1e-12), 1e-9)
+                        rec.label("softened-points-compared-with-closed-form")
                     # reloading retraces unloading: same value below the maximum -> same reaction force
                     rf = float(np.asarray(res.fun)[mdof].sum())
                     key = round(vals[i], 12)
